@@ -310,6 +310,11 @@ def run_c18(tier, seed):
                 n += 1
                 ops.append(dict(id="l%d" % n, kind="listpaths", client="c1", wallet="", acct="", paths=[PATHCAT[p_] for p_ in ("w1", "w2", "w10")], pids=["w1", "w2", "w10"]))
             ops += lists()
+            if ci % 2 == 0:
+                # a new process image on the same wallet store: what was created through Dirk is still there and is listed
+                n += 1
+                ops.append(dict(id="r%d" % n, kind="restart"))
+                ops += lists()
             sid = "C18-%d" % ci
             scenarios.append(dict(id=sid, world=dict(world0, perms=[dict(client="c1", perms=perms)]), ops=ops))
             cfgs[sid] = cfg
